@@ -310,6 +310,17 @@ const fullIntrospection = `{ __schema { queryType { name } mutationType { name }
 fragment T on __Type { kind name ofType { kind name ofType { kind name ofType { kind name ofType { kind name ofType { kind name } } } } } }`
 
 func (c14) Run(c *Ctx, i int) CaseResult {
+	// L2: the gateway's own resolver (Gateway.Query: directives, fragments, argument variables, dispatch) against Gq.query
+	gqStats := map[string]int{}
+	for k := 0; k < 4; k++ {
+		gf, feat := GwQueryCorr(c, c.Rand(i*10+k+92000000))
+		if len(gf) > 0 {
+			return CaseResult{ID: fmt.Sprintf("gen:%d", i), Nontrivial: true, Fails: gf}
+		}
+		if feat != "" {
+			gqStats["gateway_query_"+feat]++
+		}
+	}
 	r := c.Rand(i + 91000000)
 	tbl := mergeTable()
 	// a scalar with @specifiedBy and a deprecated field without reason
@@ -497,6 +508,12 @@ func (c14) Run(c *Ctx, i int) CaseResult {
 	}
 	if i%53 == 0 || i < 3 {
 		res.Sample = map[string]interface{}{"query": query, "variables": vars, "services": nsvc}
+	}
+	if res.Counters == nil {
+		res.Counters = map[string]int{}
+	}
+	for k, v := range gqStats {
+		res.Counters[k] += v
 	}
 	return res
 }
